@@ -130,6 +130,18 @@ pub fn enumerate_cases(base: &MpcCase, corrupt: usize, tree_cap: usize, full: bo
             cases.push(Case { attack: AttackCase { taps: vec![TapSpec { site: "garble_plain".into(), idx: None, action: a }], ..AttackCase::honest(base.clone(), corrupt) }, label: "garbled row plaintext".into(), honest_peak });
         }
     }
+    // a committed string whose length the cheater chooses: the aShare bit/MAC string is altered
+    // before it is committed to, so commitment and opening stay consistent (one round / all rounds)
+    {
+        let dm_len = 1 + 16 * (n - 1);
+        let mut acts: Vec<TapAction> = byte_muts(dm_len).into_iter().map(TapAction::Bytes).collect();
+        acts.push(TapAction::Bytes(ByteMut::Truncate(17)));
+        for a in acts {
+            for idx in [Some(0usize), None] {
+                cases.push(Case { attack: AttackCase { taps: vec![TapSpec { site: "fashare_dm_vec".into(), idx, action: a.clone() }], ..AttackCase::honest(base.clone(), corrupt) }, label: "aShare committed string".into(), honest_peak });
+            }
+        }
+    }
     for k in 0..=mine.len() {
         cases.push(Case {
             attack: AttackCase { crash_after: Some(k), ..AttackCase::honest(base.clone(), corrupt) },
@@ -141,7 +153,7 @@ pub fn enumerate_cases(base: &MpcCase, corrupt: usize, tree_cap: usize, full: bo
 }
 
 pub fn test_case(case: &Case) -> Result<CaseInfo, Fail> {
-    let run = run_attack(&case.attack, &ExecCfg { record_probes: false, step_budget: 400_000 });
+    let run = run_attack(&case.attack, &ExecCfg { record_probes: false, step_budget: 400_000, slow_sends: false });
     let res = &run.res;
     let corrupt = case.attack.corrupt;
     let mclass = case.attack.faults.first().map(|f| tree_mut_name(&f.mutation)).unwrap_or_else(|| match case.attack.taps.first() {
@@ -186,7 +198,7 @@ pub fn test_case(case: &Case) -> Result<CaseInfo, Fail> {
 
 pub fn run(tier: Tier, seed: u64) -> i32 {
     let ctx = Ctx::new("C08", tier, seed, "fault_enumeration");
-    ctx.set_rule("systematic enumeration: for every message index of the corrupted sender (n=2: both parties x both evaluator choices; n=3: sampled role assignments, all in thorough) x every byte-level mutator (empty, truncations, bit flips, random, extend, length-prefix := 2^k, all-ones) x every structure-aware mutator on the decoded value tree (leaf flips/sets/random, Option toggles, sequence length -1/+1/0/1 and end swaps at every nesting level; long sequences at first/middle/last element) x drop x duplicate, plus (corrupted garbler) the same byte-level mutators and every MAC-vector length 0..n+1 applied to the plaintext of its garbled rows before encryption (hook tap garble_plain), plus crash of the peer before each of its messages; oracle: every honest party ends in Ok or Err - a panic, a wait on peers that have all terminated, or an allocation peak above honest peak + 64 x delivered bytes + 4 MiB (serde caps each pre-allocation at 1 MiB; <=3 nested sequence levels) is a violation; non-trivial = the altered bytes differ from the original and were delivered (or drop / crash); distinct by hash of the fault description");
+    ctx.set_rule("systematic enumeration: for every message index of the corrupted sender (n=2: both parties x both evaluator choices; n=3: sampled role assignments, all in thorough) x every byte-level mutator (empty, truncations, bit flips, random, extend, length-prefix := 2^k, all-ones) x every structure-aware mutator on the decoded value tree (leaf flips/sets/random, Option toggles, sequence length -1/+1/0/1 and end swaps at every nesting level; long sequences at first/middle/last element) x drop x duplicate, plus (corrupted garbler) the same byte-level mutators and every MAC-vector length 0..n+1 applied to the plaintext of its garbled rows before encryption (hook tap garble_plain), and the byte-level mutators applied to the aShare bit/MAC string before it is committed to (commitment and opening consistent; hook tap fashare_dm_vec), plus crash of the peer before each of its messages; oracle: every honest party ends in Ok or Err - a panic, a wait on peers that have all terminated, or an allocation peak above honest peak + 64 x delivered bytes + 4 MiB (serde caps each pre-allocation at 1 MiB; <=3 nested sequence levels) is a violation; non-trivial = the altered bytes differ from the original and were delivered (or drop / crash); distinct by hash of the fault description");
     ctx.assume("bounded time is bounded scheduler steps; CPU blow-ups inside one poll are only caught by the step budget (reported inconclusive)");
     ctx.assume("single corrupted party; the corrupted party otherwise runs the honest code");
     let mut all = vec![];
